@@ -32,7 +32,7 @@ func (s *Sim) nextDeadline(now time.Time) (time.Time, bool) {
 		consider(w)
 	}
 	for _, t := range s.tasks {
-		if t.state == tBlocked && t.bkind == bUntil {
+		if t.state == tBlocked && t.bkind == bUntil && !t.until.Before(now) {
 			consider(t.until)
 		}
 	}
